@@ -9,14 +9,16 @@ from ..core import obligation, AnalysisError
 from .common import *
 from .. import normal
 
+# (functions whose every exit is already decided by a path-summary obligation - waiter C19.8, _value C01.11, np2dt C04.7, _as_primitive C07.10,
+#  try_back/try_value C18.2 - are not listed: their own table says which spellings of an exit are the same exit)
 DISPATCHERS = {
-    'C01': ['_dictable:dictable.__getitem__', '_dictable:dictable.concat', '_dictable:dict_concat', '_dictable:_value', '_zip:lens', '_zip:zipper'],
+    'C01': ['_dictable:dictable.__getitem__', '_dictable:dictable.concat', '_dictable:dict_concat', '_zip:lens', '_zip:zipper'],
     'C02': ['_dictable:dictable.join', '_dictable:dictable.xor', '_dictable:dictable._listby', '_sort:cmp', '_sort:cmparr'],
     'C03': ['_pandas:_df_reindex', '_pandas:_df_recolumn', '_pandas:_df_index', '_pandas:_np_index', '_pandas:df_sync', '_pandas:df_index', '_pandas:df_columns'],
-    'C04': ['_dates:dt', '_dates:num2dt', '_dates:np2dt', '_dates:_ymd', '_dates:ym', '_dates:uk2dt', '_dates:us2dt', '_dates:dt2str'],
+    'C04': ['_dates:dt', '_dates:num2dt', '_dates:_ymd', '_dates:ym', '_dates:uk2dt', '_dates:us2dt', '_dates:dt2str'],
     'C05': ['_drange:Calendar.adjust', '_drange:Calendar.add', '_drange:Calendar.bdays', '_drange:Calendar.drange', '_drange:Calendar.is_bday', '_drange:Calendar.is_holiday'],
     'C06': ['_dictable:dictable.inc', '_dictable:dictable.exc', '_dictable:_row_check', '_dictable:dict_concat'],
-    'C07': ['_sort:cmp', '_sort:cmparr', '_sort:sort', '_as_primitive:_as_primitive', '_dictable:dictable.sort'],
+    'C07': ['_sort:cmp', '_sort:cmparr', '_sort:sort', '_dictable:dictable.sort'],
     'C08': ['_pandas:_div_', '_pandas:_mask', '_pandas:mask2v', '_pandas:df_sum', '_pandas:df_count', '_pandas:df_mean', '_pandas:_df_index', '_pandas:_np_index'],
     'C09': ['_dates:dt_bump', '_dates:_ymd', '_dates:ym'],
     'C10': ['_drange:drange'],
@@ -27,8 +29,8 @@ DISPATCHERS = {
     'C15': ['_dict:_tree_setitem', '_dict:tree_update', '_dict:items_to_tree', '_dict:tree_getitem', '_dict:tree_get', '_tree:tree_to_table', '_table_to_tree:table_to_tree', '_table_to_tree:_table_to_tree'],
     'C16': ['_ulist:ulist.__add__', '_ulist:ulist.__sub__', '_ulist:ulist.__and__', '_dictattr:dictattr.__getitem__', '_dictattr:dictattr.__sub__', '_dictattr:dictattr.__and__', '_dict:Dict.apply', '_dict:Dict.__call__'],
     'C17': ['_bitemporal:bi_read', '_bitemporal:bi_merge', '_bitemporal:_drop_repeats'],
-    'C18': ['_cache:_prehash', '_cache:cache_func.wrapped', '_decorators:kwargs_support.wrapped', '_decorators:try_value.wrapped', '_decorators:try_back.wrapped', '_inspect:getcallargs'],
-    'C19': ['_loop:loops._wrapped', '_loop:_item_by_i', '_loop:_item_by_key', '_waiter:waiter', '_as_list:as_list', '_as_list:as_tuple', '_zip:zipper'],
+    'C18': ['_cache:_prehash', '_cache:cache_func.wrapped', '_decorators:kwargs_support.wrapped', '_inspect:getcallargs'],
+    'C19': ['_loop:loops._wrapped', '_loop:_item_by_i', '_loop:_item_by_key', '_as_list:as_list', '_as_list:as_tuple', '_zip:zipper'],
     'C20': ['_perdictable:join', '_perdictable:perdictable._value_output', '_perdictable:perdictable._dict_output', '_perdictable:_join_dictable_with_defaults'],
 }
 
